@@ -35,6 +35,7 @@ def index_space(name):
 
 
 _LOCAL = {}
+FACTORY_CHECKS = [0]
 
 
 def mk_index(s, fresh=None):
@@ -62,8 +63,19 @@ def mk_index(s, fresh=None):
                 kw['beta'] = True
             _LOCAL[key] = Index(base, **kw)
         return _LOCAL[key]
-    return get_symbols([n], [sp] if sp else None)[0] if sp else \
+    idx = get_symbols([n], [sp] if sp else None)[0] if sp else \
         get_symbols([n])[0]
+    # post-condition of the index registry: the object handed out carries the
+    # requested name, the space of its letter and the requested spin (every
+    # oracle below reads these attributes from the library's own object)
+    FACTORY_CHECKS[0] += 1
+    if idx.name != n or idx.space != index_space(n) or idx.spin != sp:
+        from .common import MonitorViolation
+        raise MonitorViolation(
+            f'index registry: get_symbols({n!r}, {sp!r}) returned an Index with '
+            f'name={idx.name!r} space={idx.space!r} spin={idx.spin!r} '
+            f'(requested space {index_space(n)!r}, spin {sp!r})')
+    return idx
 
 
 def mk_indices(lst, fresh=None):
@@ -79,9 +91,11 @@ def mk_obj(o, fresh=None):
     ex = o.get('exp', 1)
     if t == 'br':
         from adcgen.tensor_names import tensor_names
-        base = Add(*[sympify(c) * NonSymmetricTensor(
-            o.get('name', tensor_names.orb_energy), (mk_index(s, fresh),))
-            for c, s in o['e']])
+        # entries [coef, index] (tensor name of the bracket) or
+        # [coef, index, name] (a bracket that mixes one-index tensors)
+        base = Add(*[sympify(en[0]) * NonSymmetricTensor(
+            en[2] if len(en) > 2 else o.get('name', tensor_names.orb_energy),
+            (mk_index(en[1], fresh),)) for en in o['e']])
         return Pow(base, ex)
     if t == 'sym0':
         base = Symbol(o['name'])
@@ -114,7 +128,7 @@ def mk_expr(terms, fresh=None):
 
 def obj_index_list(o):
     if o['t'] == 'br':
-        return [s for _, s in o['e']]
+        return [en[1] for en in o['e']]
     return list(o.get('up', [])) + list(o.get('lo', []))
 
 
@@ -137,7 +151,8 @@ def rename_term(term, mapping):
     t = copy.deepcopy(term)
     for o in t['objs']:
         if o['t'] == 'br':
-            o['e'] = [[c, mapping.get(s, s)] for c, s in o['e']]
+            o['e'] = [[en[0], mapping.get(en[1], en[1])] + list(en[2:])
+                      for en in o['e']]
         else:
             if 'up' in o:
                 o['up'] = [mapping.get(s, s) for s in o['up']]
